@@ -12,6 +12,10 @@ Decided:
     inside the window.
  B4 decoding tables: capability iterator and enumeration decode id/next/private header and vendor/device/class fields
     at the specified bit positions.
+ B6 bracket on every exit: in every function of the PCI root that rewrites the command register (disabling decoding
+    while BARs are sized), each path from such a write to a return - error returns included - passes through a later
+    write of the command register (the restore); B1's model decides the values for bar_info, B6 the shape for any
+    caller that brackets a whole scan.
  B5 bus walk: one iteration of the bus iterator's loop is path-enumerated (paths end at the loop back edge or at a
     return) and folded into a transition function over (device, function, function-present?); the transition is then
     iterated from (0,0) over its whole finite state space: with nothing present the probes are exactly (d,f) for d in
@@ -25,7 +29,7 @@ from ..mmio import *
 EXPLANATION = ("bar_info and cam_offset are loop-free: their MIR is converted to guarded traces of ConfigurationAccess reads/writes "
                "and folded against a Python model of PCI configuration space over an enumerated table of BAR kinds, sizes, slots "
                "and command values; returned values and final register state are compared with the PCI 3.0 definition.")
-FLOORS = {'identity_fields': 6, 'cam_accessors': 2, 'bus_iterators': 1, 'bar_scenarios': 1000, 'cam_rows': 500}
+FLOORS = {'command_bracket_fns': 1, 'identity_fields': 6, 'cam_accessors': 2, 'bus_iterators': 1, 'bar_scenarios': 1000, 'cam_rows': 500}
 CFGACC = 'transport::pci::bus::ConfigurationAccess'
 
 
@@ -122,6 +126,7 @@ def run(F, R):
     b3_cam(F, R)
     b4_decode(F, R)
     b5_bus_walk(F, R)
+    b6_restore_on_every_exit(F, R)
 
 
 def b1_b2(F, R, b):
@@ -349,6 +354,61 @@ def header_type_name(F, code):
             if len(hit) == 1 and hit[0].ret and hit[0].ret[0] == 'agg':
                 return hit[0].ret[1].rsplit('::', 1)[1]
     return None
+
+
+def b6_restore_on_every_exit(F, R):
+    n = 0
+    for b in F.bodies.values():
+        if not F.handwritten(b) or b['kind'] != 'AssocFn' or 'transport::pci::bus::PciRoot' not in (b.get('impl_adt') or ''):
+            continue
+        # command-register writers: private helpers whose only config write targets the status/command word (offset 4)
+        sg = supergraph(F, b['id'], opaque=lambda t, bb: bb.get('pub') and bb['id'] != b['id'], tag='b6')
+        S = sg.sym
+        cw = []
+        for c in sg.calls(lambda d: d.get('trait') == 'transport::pci::bus::ConfigurationAccess' and d.get('method') == 'write_word'):
+            off = fold_const(S.operand(c.id, c.d['args'][2]))
+            if off == 4:
+                cw.append(c.id)
+        # calls to public helpers that write the command register (set_command)
+        for c in sg.calls(lambda d: d.get('fn', '').endswith('::set_command')):
+            cw.append(c.id)
+        if not cw:
+            continue
+        n += 1
+        where = fn_site(F, b['id'])
+        bad = None
+        for w in cw:
+            others = [x for x in cw if x != w]
+            # is this a "disable" write, i.e. can another command write follow it? if none can, it is the restore itself
+            if not any(o in sg.reach_fwd(list(sg.nodes[w].succ)) for o in others):
+                continue
+            # path correlation: the write happens under conditions (e.g. `disabled != original`) that are re-tested before
+            # the restore; the opposite outcome of a test of the same value is infeasible after this write
+            def norm(t):
+                # comparison calls at different program points over the same (immutable) values denote the same test
+                if isinstance(t, tuple):
+                    if t and t[0] == 'call' and len(t) > 3 and (t[2].endswith('::ne') or t[2].endswith('::eq')):
+                        return ('call', t[2], tuple(norm(a) for a in t[3]))
+                    if t and t[0] == 'refto':
+                        return norm(t[1])
+                    return tuple(norm(x) for x in t)
+                return t
+            infeasible = set()
+            for swid, vals, succ in sg.guards_of(w):
+                dterm = norm(S.operand(swid, sg.nodes[swid].d['discr']))
+                for m in sg.nodes:
+                    if m.kind == 'switch' and m.id != swid and norm(S.operand(m.id, m.d['discr'])) == dterm:
+                        for val, sc in m.switch_edges:
+                            same = (val in vals) if val is not None else (None in vals)
+                            if not same:
+                                infeasible.add((m.id, sc))
+            r = sg.reach_fwd(list(sg.nodes[w].succ), avoid=others, avoid_edges=infeasible)
+            ex = [e for e in sg.exits if e in r]
+            if ex:
+                bad = 'after the command register is rewritten at %s a return is reachable without a later write restoring it' % site(sg, sg.nodes[w])
+        R.check(bad is None, 'B6', '%s:command-restored-on-every-exit' % b['id'], where, 'every return after a command-register write is preceded by a restoring write (%d writes)' % len(cw),
+                'BAR probing side effect: %s (an error return leaves address decoding disabled)' % bad)
+    R.count('command_bracket_fns', n)
 
 
 def b5_bus_walk(F, R):
